@@ -47,6 +47,8 @@ def instances(tier):
                         "kwargs": {"func": "history_env", "twin": "history_env_reach" if (c1, kind) in ((3, 0), (6, 4)) else None, "env": {"XH_C1": str(c1), "XH_KIND": str(kind)}}})
         out.append({"name": f"crosshair_roundtrip_after_read_c{c1}", "func": "run_xh", "timeout": t,
                     "kwargs": {"func": "roundtrip_after_read", "twin": None, "env": {"XH_C1": str(c1)}}})
+        out.append({"name": f"crosshair_load_into_used_c{c1}", "func": "run_xh", "timeout": t,
+                    "kwargs": {"func": "load_into_used", "twin": None, "env": {"XH_C1": str(c1)}}})
         out.append({"name": f"crosshair_roundtrip_c{c1}", "func": "run_xh", "timeout": t,
                     "kwargs": {"func": "roundtrip_env", "twin": "roundtrip_reach" if c1 == 4 else None, "env": {"XH_C1": str(c1)}}})
     if tier == "thorough":
@@ -105,6 +107,9 @@ def replay(spec):
         elif spec["func"] == "roundtrip_after_read":
             r["key"] = "stale-content-saved-after-in-place-change"
             r["detail"] = f"roundtrip_after_read{args} with class index {spec.get('env', {}).get('XH_C1')}: the file written after an in-place change does not hold the current content ({KINDS[args[0]]})"
+        elif spec["func"] == "load_into_used":
+            r["key"] = "load-keeps-target-state"
+            r["detail"] = f"load_into_used{args} with class index {spec.get('env', {}).get('XH_C1')}: after load() the object is not the saved content (state of the target object survives)"
         elif spec["func"] == "roundtrip_env":
             r["key"] = "reader-dispatch" if args[1] else "settings-roundtrip"
             r["detail"] = f"roundtrip_env{args} with class index {spec.get('env', {}).get('XH_C1')}: class or attribute content differs after save/load"
